@@ -110,6 +110,7 @@ def handle : List String → String
   | "httpchain" :: rest => handleChain rest
   | "httptpl" :: rest => handleTpl rest
   | "cfenv" :: rest => handleCfEnv rest
+  | "httpdial" :: rest => handleDial rest
   | ["zoo", _, _, _] => "zoo"      -- oracle-only stream (real provisioned server); nothing to model
   | _ => "bad-op"
 
